@@ -14,7 +14,7 @@ EXPLANATION = """
 add_argument -> (parser, option strings, dest by argparse's rule, action, default, const, nargs, type). For every parser and every
 Config key it declares, the action must be ExplicitOption (an explicit flag must be able to beat the configuration file).
 [TERM] ExplicitOption.__call__ unconditionally stores the value and the marker dest + '__explicit'; main() reads the same marker
-suffix. [DOM] main(): Config(**vars(args)) -> load_config(config_dir=args.config_dir) -> update(explicit options), in this order and
+suffix; [TABLE] evaluated on scripted namespaces -- two options explicit, and each Config key explicit on its own -- the explicit layer hands config.update exactly the marked options with their values (in the calling convention Config.update declares). [DOM] main(): Config(**vars(args)) -> load_config(config_dir=args.config_dir) -> update(explicit options), in this order and
 before the first read of a configured value; [PROV] no configurable option is read from `args` directly.
 [REGION] Config.load_config over {toml present, json present}: TOML (tomllib, 'rb') iff present, else JSON iff present, else
 nothing -- a present TOML file suppresses JSON even when it is empty; the loaded keys pass through __init__, which reads a
